@@ -834,8 +834,13 @@ func (c *Client) peekPacket() (head byte, err error) {
 
 	// slice payload form read buffer
 	c.peek = nil // progress is measured against the new packet only
+	// BigMessage takes over once the read buffer is full.
+	peekN := size
+	if peekN > c.bufr.Size() {
+		peekN = c.bufr.Size()
+	}
 	for {
-		if c.bufr.Buffered() < size && c.PauseTimeout != 0 {
+		if c.bufr.Buffered() < peekN && c.PauseTimeout != 0 {
 			err := c.readConn.SetReadDeadline(time.Now().Add(c.PauseTimeout))
 			if err != nil {
 				return 0, err // deemed critical
@@ -843,12 +848,16 @@ func (c *Client) peekPacket() (head byte, err error) {
 		}
 
 		lastN := len(c.peek)
-		c.peek, err = c.bufr.Peek(size)
+		c.peek, err = c.bufr.Peek(peekN)
 		switch {
-		case err == nil: // OK
-			return head, err
-		case head>>4 == typePUBLISH && errors.Is(err, bufio.ErrBufferFull):
+		case err != nil:
+			break
+		case peekN == size: // OK
+			return head, nil
+		case head>>4 == typePUBLISH:
 			return head, &BigMessage{Client: c, Size: size}
+		default:
+			err = bufio.ErrBufferFull
 		}
 
 		// Allow deadline expiry if at least one byte was transferred.
